@@ -126,6 +126,17 @@ func (c05) Run(c *Case, st *Stats) []Violation {
 		}
 		st.Probes["compounds-compared-with-members"]++
 	}
+	// base strategies: action i is the documented rule applied to the indicator values that refer
+	// to snapshot i (the indicators evaluated on their own, see c05rules.go)
+	if len(c.Subs) == 0 {
+		snaps := genSnapshots(n, c.Shape, c.DataSeed, epoch)
+		if want, ok := ruleModel(c.strat(), snaps, st); ok {
+			if i, kind, why := ruleMismatch(acts, want); i >= 0 {
+				add(kind, why)
+			}
+			st.Probes["base-strategies-compared-with-their-rule"]++
+		}
+	}
 	st.Probes["action-streams-checked"]++
 	return vs
 }
